@@ -26,6 +26,7 @@ import (
 	"github.com/alephium/wormhole-fork/node/verifh/mc"
 	"github.com/alephium/wormhole-fork/node/verifh/quiesce"
 	"google.golang.org/grpc/metadata"
+	"google.golang.org/grpc/peer"
 )
 
 var r *ev.Run
@@ -74,6 +75,26 @@ type stream struct {
 	got      []string      // hex of VAAs received, in order
 	inSend   bool
 	polled   int // Context() calls: the subscription loop has been entered at least once when > 0
+}
+
+type addr string
+
+func (a addr) Network() string { return "tcp" }
+func (a addr) String() string  { return string(a) }
+
+// peerOf: subscribers 0 and 1 are two streams of ONE client connection (same peer address, as gRPC
+// multiplexes streams), subscriber 2 comes from another connection.
+func peerOf(i int) string {
+	if i <= 1 {
+		return "10.0.0.1:50051"
+	}
+	return "10.0.0.2:40404"
+}
+
+func newStreamFor(i int) *stream {
+	base := peer.NewContext(context.Background(), &peer.Peer{Addr: addr(peerOf(i))})
+	ctx, c := context.WithCancel(base)
+	return &stream{ctx: ctx, cancel: c, release: make(chan struct{})}
 }
 
 func newStream() *stream {
@@ -250,7 +271,7 @@ func (s *sys) Apply(ei int, hist []int, check bool) {
 	switch e.Kind {
 	case "sub":
 		sb := s.subs[e.I]
-		sb.st, sb.filters, sb.fidx, sb.active, sb.done = newStream(), filterSets[e.F], e.F, true, make(chan error, 1)
+		sb.st, sb.filters, sb.fidx, sb.active, sb.done = newStreamFor(e.I), filterSets[e.F], e.F, true, make(chan error, 1)
 		req := &spyv1.SubscribeSignedVAARequest{}
 		for _, f := range sb.filters {
 			req.Filters = append(req.Filters, &spyv1.FilterEntry{Filter: &spyv1.FilterEntry_EmitterFilter{EmitterFilter: &spyv1.EmitterFilter{
